@@ -20,7 +20,29 @@
                                                at the very end of the resource, are covered.)
      C02_layout_independent_wellformed_partial the parsed tree (joined) does not depend on the layout, same premises
    The premise excludes exactly the shape of finding D7 (printed last and without a final line end, the empty
-   last line of the comment is the bare "#" at the end of the input, which the parser drops).
+   last line of the comment is the bare "#" at the end of the input, which the parser drops), and there the
+   statement is FALSE (Syntax/D7Exact.v):
+     C02_wellformed_refuted_exactly            for every well-formed UTF-8 tree whose last entry is a stand-alone
+                                               comment with at least two lines and an empty last line, the
+                                               statement fails: it is not the case that all layouts parse back
+     C02_D7_parse                              ... because the layout `render [] t` (first option everywhere: no
+                                               final line end) parses, without errors, to a tree that joins to
+                                               t WITHOUT that last comment line
+     C02_D7_excluded                           these trees are exactly what last_comment_ok rejects among the
+                                               trees whose last comment has two or more lines
+     C02_example_D7_one_line_1/2/3             a last comment that is ONE empty line is returned with ZERO lines
+                                               (by computation, for #, ## and ###, with an entry in front)
+   Beyond the layouts that Render.v can choose (0-2 spaces, ...), the same holds for ALL layouts of a tree:
+     C02_parse_all_layouts_partial             for every well-formed UTF-8 tree t and every text bs that is a layout of t
+                                               (RoundTripNest.nest_layout d t bs, d the depth of t: ANY number of blank
+                                               lines with any spaces at the start and between entries, any number
+                                               of spaces around '=', any indentation >= 1 of attribute lines and of
+                                               continuation lines, inline or block start of a value, blanks of any
+                                               length inside { } [ ] ( ), LF or CRLF, with or without final line
+                                               end), parse bs returns, without errors, a tree that joins to t
+     C02_rendered_is_layout                    render cs t is such a layout when last_comment_ok t
+   and the rendered source is a Rust str, so that C01 applies to it:
+     C02_rendered_source_is_utf8               wf_utf8_resource t -> utf8_valid (render cs t) (Syntax/RenderFacts.v)
    How: the fragments nest_resource d below (RoundTripNest.v; d = nesting depth) extend sel_resource d by NESTED
    CALL ARGUMENTS: a positional argument may be any inline expression (a call, a term attribute, a placeable
    that holds any expression, select expressions included); and WfComplete.v proves that they are COMPLETE:
@@ -102,7 +124,7 @@
    Examples (vm_compute) for trees outside the fragment: C02_example_xxx.                            *)
 From FluentV Require Import Base.Bytes Base.Outcome Base.Utf8 Syntax.Ast.
 From FluentV Require Import Syntax.ParserModel Syntax.Render Syntax.TreeNorm Syntax.WfUtf8 Syntax.RoundTrip Syntax.RoundTripML Syntax.RoundTripSel.
-From FluentV Require Import Syntax.RoundTripNest Syntax.WfComplete.
+From FluentV Require Import Syntax.RoundTripNest Syntax.WfComplete Syntax.RenderFacts Syntax.D7Exact.
 
 (* "Every resource that is well-formed under the Fluent 1.0 grammar parses without errors or Junk and
    yields exactly the entries the grammar assigns to it ...  The tree does not depend on layout choices
@@ -128,6 +150,43 @@ Proof.
   intros cs1 cs2 t Hw Hu Hc. destruct (parse_render_wf cs1 t Hw Hu Hc) as (t1 & E1 & J1).
   destruct (parse_render_wf cs2 t Hw Hu Hc) as (t2 & E2 & J2). exists t1, t2. rewrite J1, J2. auto.
 Qed.
+
+(* ... and on the excluded trees the statement is false: the layout without a final line end loses the line *)
+Theorem C02_D7_parse :
+  forall t0 e e', d7_pair e e' -> wf_resource (t0 ++ [e]) = true -> wf_utf8_resource (t0 ++ [e]) = true ->
+  exists t', parse (render [] (t0 ++ [e])) = Done (t', []) /\ map join_entry t' = t0 ++ [e'].
+Proof. exact d7_parse. Qed.
+
+Theorem C02_wellformed_refuted_exactly :
+  forall t0 e e', d7_pair e e' -> wf_resource (t0 ++ [e]) = true -> wf_utf8_resource (t0 ++ [e]) = true ->
+  ~ (forall cs, exists t', parse (render cs (t0 ++ [e])) = Done (t', []) /\ map join_entry t' = t0 ++ [e]).
+Proof. exact d7_refuted. Qed.
+
+(* d7_pair e e': e is a stand-alone comment (#, ## or ###) of two or more lines whose last line is empty, e' the same
+   comment without that line; these are the trees that last_comment_ok rejects *)
+Theorem C02_D7_excluded : forall t0 e e', d7_pair e e' -> last_comment_ok (t0 ++ [e]) = false.
+Proof.
+  intros t0 e e' Hp. unfold last_comment_ok. destruct (t0 ++ [e]) eqn:E; [destruct t0; discriminate E|]. rewrite <- E, last_last.
+  destruct Hp as [ls _ | ls _ | ls _]; cbn [eof_okb content]; rewrite last_last; reflexivity.
+Qed.
+
+(* every layout, not only those that Render.v can choose *)
+Theorem C02_parse_all_layouts_partial :
+  forall t, wf_resource t = true -> wf_utf8_resource t = true ->
+  exists d, nest_resource d t = true /\
+            forall bs, nest_layout d t bs -> exists t', parse bs = Done (t', []) /\ map join_entry t' = t.
+Proof.
+  intros t Hw Hu. destruct (wf_resource_nest t Hw Hu) as [d Hd]. exists d. split; [exact Hd|].
+  intros bs HL. apply (parse_layout_nest d t bs Hd HL).
+Qed.
+
+Theorem C02_rendered_is_layout :
+  forall d cs t, nest_resource d t = true -> last_comment_ok t = true -> nest_layout d t (render cs t).
+Proof. exact render_nest_layout. Qed.
+
+(* the text that is parsed is a Rust str (the domain of property C01) *)
+Theorem C02_rendered_source_is_utf8 : forall cs t, wf_utf8_resource t = true -> utf8_valid (render cs t) = true.
+Proof. exact render_utf8. Qed.
 
 (* the fragments with nested call arguments, and their completeness *)
 Theorem C02_roundtrip_nested_partial :
@@ -413,6 +472,25 @@ Example C02_example_comments_1 : roundtrips_under [] ex_comments.
 Proof. rt. Qed.
 Example C02_example_comments_2 : roundtrips_under [2;1;3;1;2;2;3;1;0;2;3;1;2;1;3;2;2;1] ex_comments.
 Proof. rt. Qed.
+
+(* finding D7 for a comment that is ONE empty line: it is returned with ZERO lines *)
+Example C02_example_D7_one_line_1 :
+  parse (render [] [Message (b "m") (Some (Pattern [TextElement (b "x")])) [] None; CommentEntry (Comment [[]])]) =
+  Done ([Message (b "m") (Some (Pattern [TextElement (b "x")])) [] None; CommentEntry (Comment [])], []).
+Proof. vm_compute. reflexivity. Qed.
+Example C02_example_D7_one_line_2 :
+  parse (render [] [Message (b "m") (Some (Pattern [TextElement (b "x")])) [] None; GroupComment (Comment [[]])]) =
+  Done ([Message (b "m") (Some (Pattern [TextElement (b "x")])) [] None; GroupComment (Comment [])], []).
+Proof. vm_compute. reflexivity. Qed.
+Example C02_example_D7_one_line_3 :
+  parse (render [] [Message (b "m") (Some (Pattern [TextElement (b "x")])) [] None; ResourceComment (Comment [[]])]) =
+  Done ([Message (b "m") (Some (Pattern [TextElement (b "x")])) [] None; ResourceComment (Comment [])], []).
+Proof. vm_compute. reflexivity. Qed.
+(* ... and an instance of C02_D7_parse *)
+Example C02_example_D7_two_lines :
+  parse (render [] [Message (b "m") (Some (Pattern [TextElement (b "x")])) [] None; CommentEntry (Comment [b "a"; []])]) =
+  Done ([Message (b "m") (Some (Pattern [TextElement (b "x")])) [] None; CommentEntry (Comment [b "a"])], []).
+Proof. vm_compute. reflexivity. Qed.
 
 (* the layouts really differ *)
 Example C02_example_layouts_differ :
